@@ -35,7 +35,7 @@ def _slots_in(prog, fn_key, callee_pred, state_adt, variants):
         if val is None:
             reached = body.reachable()
         else:
-            reached, _ = PEval(body, assume_discr("action", val)).run()
+            reached, _ = PEval(body, assume_discr(body.local_name(2) or "action", val)).run()
         slots = set()
         for b in reached:
             t = body.term(b)
